@@ -697,6 +697,7 @@ func (f *fileStore) setPageTableRoot(node *btreeNode) error {
 }
 
 func (f *fileStore) getLastKey() uint32 {
+	verifAccess(f, verifAccReadHeader, 0)
 	return f.lastKey
 }
 
@@ -835,6 +836,7 @@ func (f *fileStore) setCache(key any, val *btreeNode) error {
 }
 
 func (f *fileStore) nextLSN() uint64 {
+	verifAccess(f, verifAccReadHeader, 1)
 	return f._nextLSN
 }
 
